@@ -1333,3 +1333,160 @@ func decodeResultCompared(info *types.Info, fd *ast.FuncDecl, call *ast.CallExpr
 	})
 	return found
 }
+
+// ---- C04.R5 decimal text becomes a float only by a correctly rounding conversion ----
+
+// The float decoders hand the text of a number to strconv.ParseFloat, which rounds correctly. A hand-written
+// conversion of the form float64(mantissa) / 10^k (or * 10^k) gives the correctly rounded result only under the
+// classical exactness conditions: the mantissa is below 2^53 (at most 15 decimal digits) and the power of ten is at
+// most 10^22, so that both operands are exact and the one operation rounds once. Any such arithmetic in the decoder
+// has to stand under guards that establish both bounds; otherwise some 16- or 17-digit literals are rounded twice and
+// Unmarshal(Marshal(f)) returns a neighbour of f.
+func c04r5(rc *core.RC) {
+	p := rc.P
+	n := 0
+	isFloat := func(t types.Type) bool {
+		b, ok := t.Underlying().(*types.Basic)
+		return ok && b.Info()&types.IsFloat != 0
+	}
+	for _, fd := range p.Funcs("decoder") {
+		if fd.Body == nil {
+			continue
+		}
+		info := p.Info(fd)
+		fn := p.FuncName(fd)
+		k := 0
+		ast.Inspect(fd.Body, func(m ast.Node) bool {
+			be, ok := m.(*ast.BinaryExpr)
+			if !ok || (be.Op != token.QUO && be.Op != token.MUL) {
+				return true
+			}
+			tv, has := info.Types[be]
+			if !has || !isFloat(tv.Type) || tv.Value != nil {
+				return true
+			}
+			// float64(<integer variable>) on one side
+			var mant types.Object
+			for _, side := range []ast.Expr{be.X, be.Y} {
+				if c, isCall := core.Unparen(side).(*ast.CallExpr); isCall && len(c.Args) == 1 {
+					if t, isT := info.Types[c.Fun]; isT && t.IsType() && isFloat(t.Type) {
+						if o := core.ObjOf(info, c.Args[0]); o != nil {
+							if b, isBasic := o.Type().Underlying().(*types.Basic); isBasic && b.Info()&types.IsInteger != 0 {
+								mant = o
+							}
+						}
+					}
+				}
+			}
+			if mant == nil {
+				return true
+			}
+			n++
+			k++
+			rc.Touch(fn)
+			key := fmt.Sprintf("%s/float-arithmetic#%d exactness-guards", fn, k)
+			// (1) an explicit bound on the mantissa: mant < C or mant <= C with C <= 2^53, on a returning branch's negation
+			const two53 = int64(1) << 53
+			mantBound := false
+			digitBound := int64(-1)
+			// counters: integer variables incremented in the function
+			counters := map[types.Object]bool{}
+			ast.Inspect(fd.Body, func(y ast.Node) bool {
+				if ids, isInc := y.(*ast.IncDecStmt); isInc && ids.Tok == token.INC {
+					if o := core.ObjOf(info, ids.X); o != nil {
+						counters[o] = true
+					}
+				}
+				return true
+			})
+			// comparisons that end the conversion on their own: whole disjuncts of the condition of a returning if
+			var exits []*ast.BinaryExpr
+			ast.Inspect(fd.Body, func(y ast.Node) bool {
+				ifs, isIf := y.(*ast.IfStmt)
+				if !isIf {
+					return true
+				}
+				returns := false
+				for _, st := range ifs.Body.List {
+					if _, isRet := st.(*ast.ReturnStmt); isRet {
+						returns = true
+					}
+				}
+				if !returns {
+					return true
+				}
+				var disj func(e ast.Expr)
+				disj = func(e ast.Expr) {
+					e = core.Unparen(e)
+					if b, isBin := e.(*ast.BinaryExpr); isBin {
+						if b.Op == token.LOR {
+							disj(b.X)
+							disj(b.Y)
+							return
+						}
+						if b.Op != token.LAND {
+							exits = append(exits, b)
+						}
+					}
+				}
+				disj(ifs.Cond)
+				return true
+			})
+			for _, c := range exits {
+				lhs := core.ObjOf(info, c.X)
+				v, isC := core.ConstInt(info, c.Y)
+				if lhs == nil || !isC {
+					continue
+				}
+				if lhs == mant {
+					switch c.Op {
+					case token.GEQ, token.GTR: // leaves when mant >= C
+						if v <= two53 {
+							mantBound = true
+						}
+					}
+				}
+				if counters[lhs] {
+					switch c.Op {
+					case token.EQL, token.GEQ: // no further digit is taken once the counter has reached v
+						if digitBound < 0 || v < digitBound {
+							digitBound = v
+						}
+					case token.GTR:
+						if digitBound < 0 || v+1 < digitBound {
+							digitBound = v + 1
+						}
+					}
+				}
+			}
+			switch {
+			case mantBound:
+				rc.OK(key, be.Pos(), "the integer mantissa %s is tested against a bound of at most 2^53 before it is converted: it is exact as a float64", mant.Name())
+			case digitBound >= 0 && digitBound <= 15:
+				rc.OK(key, be.Pos(), "at most %d decimal digits are accumulated into %s: below 2^53, exact as a float64", digitBound, mant.Name())
+			case digitBound > 15:
+				rc.Bad(key, be.Pos(), "%s converts a mantissa of up to %d decimal digits with float arithmetic (%s): a 16-digit mantissa can exceed 2^53, it is rounded when converted and the operation rounds again, so some literals decode to the neighbouring float64 (9.468889844902423 comes back as 9.468889844902424) where strconv.ParseFloat and encoding/json round once", fn, digitBound, core.Src(p.Fset, be))
+			default:
+				rc.Bad(key, be.Pos(), "%s converts decimal text with float arithmetic (%s) and no bound on the number of digits or on the mantissa (< 2^53) was found: the result is not the correctly rounded value for long literals", fn, core.Src(p.Fset, be))
+			}
+			return true
+		})
+	}
+	// the conversions that exist today
+	m := 0
+	for _, fd := range p.Funcs("decoder") {
+		if fd.Body == nil {
+			continue
+		}
+		info := p.Info(fd)
+		ast.Inspect(fd.Body, func(y ast.Node) bool {
+			if c, ok := y.(*ast.CallExpr); ok && core.CalleeName(info, c) == "strconv.ParseFloat" {
+				m++
+			}
+			return true
+		})
+	}
+	if n == 0 {
+		rc.Check(m >= 4, "decoder/text-to-float-conversions", token.NoPos, "decimal text becomes a float only through strconv.ParseFloat (%d call sites); the decoder has no float arithmetic on an integer mantissa", m)
+	}
+}
